@@ -105,6 +105,10 @@ def build(name, source, defines=(), sanitize=True, opt="-O0", extra=(), compiler
     os.makedirs(BUILD, exist_ok=True)
     out = os.path.join(BUILD, f"{name}-{key}")
     if os.path.exists(out):
+        try:
+            os.utime(out)
+        except OSError:
+            pass
         return out
     tmp = out + f".tmp{os.getpid()}"
     cmd = [compiler] + flags + ["-I", os.path.join(REPO, "src"), "-I", HARNESS,
@@ -138,9 +142,13 @@ def prune_build_cache(keep_latest=60):
         files = sorted((os.path.join(BUILD, f) for f in os.listdir(BUILD)), key=os.path.getmtime)
     except FileNotFoundError:
         return
+    # only binaries that have not been used for three hours go (a long-running check started before many
+    # rebuilds must still find its binaries); build() refreshes the time stamp on every cache hit
+    cutoff = time.time() - 3 * 3600
     for f in files[:-keep_latest]:
         try:
-            os.remove(f)
+            if os.path.getmtime(f) < cutoff:
+                os.remove(f)
         except OSError:
             pass
 
